@@ -514,34 +514,77 @@ def rule_adv(S):
 
 def rule_pub(S):
     facts = S.facts()
-    S.rule('R-PUB', 'assign_thread_info: on the OK path set_begin_epoch(epoch_management::get_epoch()) on the claimed '
-                    'slot precedes the return; leave_thread_info: set_begin_epoch(0) on the token\'s slot')
+    S.rule('R-PUB', 'assign_thread_info: on the OK path set_begin_epoch(<value read from epoch_management::get_epoch()>) '
+                    'on the claimed slot precedes the return; leave_thread_info: set_begin_epoch(0) on the token\'s slot')
+    S.rule('R-FRESH', 'assign_thread_info: the published begin epoch is re-validated after its publication: on every path '
+                      'to `return OK` the stored value e was compared equal to a later epoch_management::get_epoch() '
+                      '(until the store the epoch thread does not wait for the slot, so the value read before it can be '
+                      'arbitrarily old; a stale begin epoch makes the retire tags of the session too old - finding F10)')
     f = facts.one(Y + 'thread_info_table::assign_thread_info')
     res = {}
+    GE = Y + 'epoch_management::get_epoch'
+    epoch_vars = {v['id'] for n in f.all_nodes() if n['k'] == 'DeclStmt' for v in n.get('vars', [])
+                  if 'init' in v and any(is_call(x, cq=GE) for x in f.walk(f.node(v['init'])))}
 
     def step(ctx, nd, st):
+        pub, var, fresh = st
         if is_call(nd, cq=Y + 'thread_info::set_begin_epoch'):
             a = call_args(f, nd)
-            if a and any(is_call(x, cq=Y + 'epoch_management::get_epoch') for x in f.walk(a[0])):
-                return 'published'
+            x = f.strip(a[0], casts=True) if a else None
+            if x is not None and x['k'] == 'DeclRefExpr' and x.get('id') in epoch_vars:
+                return (True, x['id'], False)
+            if a and any(is_call(y, cq=GE) for y in f.walk(a[0])):
+                return (True, None, False)
+            return (False, None, False)
         if is_call(nd, cq=Y + 'thread_info::gain_the_right'):
-            return 'claimed'
+            return (False, None, False)
+        if nd['k'] == 'DeclStmt' and any(v['id'] == var for v in nd.get('vars', [])):
+            return (False, None, False)
         if nd['k'] == 'ReturnStmt':
             if R.ret_const(f, nd) == OKS:
-                e = res.setdefault(short_loc(nd), {'ok': True, 'path': None})
-                if st != 'published':
-                    e['ok'] = False
-                    e['path'] = ctx.witness()
+                e = res.setdefault(short_loc(nd), {'pub': True, 'fresh': True, 'path': None})
+                if not pub:
+                    e['pub'] = False
+                    e['path'] = e['path'] or ctx.witness()
+                if not fresh:
+                    e['fresh'] = False
+                    e['path'] = e['path'] or ctx.witness()
             return None
         return st
 
-    Explorer(f, step).run('start')
+    def branch(ctx, blk, idx, st):
+        pub, var, fresh = st
+        t = blk.term
+        if pub and var is not None and t and 'cond' in t and len(blk.succ) == 2:
+            c = f.strip(f.node(t['cond']))
+            flip = False
+            while c is not None and c['k'] == 'UnaryOperator' and c.get('op') == '!':
+                flip = not flip
+                c = f.strip(f.ch(c)[0])
+            if c is not None and c['k'] == 'BinaryOperator' and c.get('op') in ('==', '!='):
+                a, b = f.ch(c)[0], f.ch(c)[1]
+                for x, y in ((a, b), (b, a)):
+                    xs = f.strip(x, casts=True)
+                    if xs is not None and xs['k'] == 'DeclRefExpr' and xs.get('id') == var and \
+                            any(is_call(z, cq=GE) for z in f.walk(y)):
+                        truth = (idx == 0) != flip
+                        equal = truth if c['op'] == '==' else not truth
+                        if equal:
+                            return (pub, var, True)
+        return st
+
+    Explorer(f, step, branch).run((False, None, False))
     S.require('R-PUB', 'OK returns of assign_thread_info', len(res), 1)
     for loc, e in sorted(res.items()):
-        S.ob('R-PUB', f.qname, 'return OK at ' + loc, e['ok'],
-             'the session\'s begin epoch is published before enter returns' if e['ok'] else
+        S.ob('R-PUB', f.qname, 'return OK at ' + loc, e['pub'],
+             'the session\'s begin epoch is published before enter returns' if e['pub'] else
              'enter returns a token whose begin epoch is still 0: the session is invisible to epoch advance and GC',
              loc=loc, path=e['path'])
+        S.ob('R-FRESH', f.qname, 'return OK at ' + loc, e['fresh'],
+             'the published begin epoch was confirmed to be the global epoch after its publication' if e['fresh'] else
+             'the begin epoch is published without being re-validated against the global epoch: a thread descheduled '
+             'between reading the epoch and storing it opens a session with a stale begin epoch; what it retires is '
+             'freed while sessions that were already open still use it', loc=loc, path=e['path'])
     g = facts.one(Y + 'thread_info_table::leave_thread_info')
     clears = any(is_call(n, cq=Y + 'thread_info::set_begin_epoch') and cv_through(g, call_args(g, n)[0]) == 0
                  for n in g.all_nodes())
@@ -551,9 +594,9 @@ def rule_pub(S):
 
 
 def run(S):
-    S.undecided = ['absence of use-after-free over all interleavings (stale gc_epoch_, non-atomic table scan, the window '
-                   'between claiming a slot and publishing its epoch)', 'contents of the memory']
-    S.assumptions = ['two overlapping sessions differ by at most one epoch (follows from R-ADV + R-PUB)',
+    S.undecided = ['absence of use-after-free over all interleavings (stale gc_epoch_, non-atomic table scan, adequacy of '
+                   'the memory orders around the begin-epoch publication)', 'contents of the memory']
+    S.assumptions = ['two overlapping sessions differ by at most one epoch (follows from R-ADV + R-PUB + R-FRESH)',
                      'begin epoch 0 denotes "not in a session" (leave_thread_info, thread_info_table::init)']
     rule_wmf(S)
     rule_ret(S)
